@@ -578,6 +578,87 @@ vk_proof_models! { unwind 6; fn c03_deduce_kernel() {
     core::mem::forget(bal);
 } }
 
+// ---------------------------------------------------------------------------------------------
+// C12-H2: `account` / `commodity` declarations as report::process handles them, in every order
+// relative to the first use of the names.
+// ---------------------------------------------------------------------------------------------
+
+/// Kani stub cutting transactions out of ProcessAccumulator::process in the declaration harnesses (CBMC
+/// explores every arm of the match on the entry; add_transaction does not fit the solver).
+#[cfg(kani)]
+pub(crate) fn cut_add_transaction<'ctx>(
+    _ctx: &mut ReportContext<'ctx>,
+    _price_repos: &mut PriceRepositoryBuilder<'ctx>,
+    _bal: &mut Balance<'ctx>,
+    _txn: &syntax::tracked::Transaction,
+) -> Result<Transaction<'ctx>, BookKeepError> {
+    kani::assume(false);
+    Err(BookKeepError::UnbalancedPostings(String::new()))
+}
+
+fn decl_harness(commodity_decl: bool) {
+    // which of the two names were already used (as canonical, by a posting / amount) before the declaration
+    let used_a = vk::bool();
+    let used_b = vk::bool();
+    let with_alias = vk::bool();
+    vk::note(&|| format!("{} a{}; before it: a used {}, b used {}", if commodity_decl { "commodity" } else { "account" },
+        if with_alias { " / alias b" } else { "" }, used_a, used_b));
+    let mut ctx = new_ctx();
+    let mut accum = ProcessAccumulator::new();
+    use std::borrow::Cow;
+    let entry: syntax::tracked::LedgerEntry = if commodity_decl {
+        let mut details = Vec::with_capacity(1);
+        if with_alias { details.push(syntax::CommodityDetail::Alias(Cow::Borrowed("b"))); }
+        syntax::LedgerEntry::Commodity(syntax::CommodityDeclaration { name: Cow::Borrowed("a"), details })
+    } else {
+        let mut details = Vec::with_capacity(1);
+        if with_alias { details.push(syntax::AccountDetail::Alias(Cow::Borrowed("b"))); }
+        syntax::LedgerEntry::Account(syntax::AccountDeclaration { name: Cow::Borrowed("a"), details })
+    };
+    // identity = address of the interned string
+    let id_acc = |ctx: &mut ReportContext<'static>, n: &str| ctx.accounts.ensure(n).as_str().as_ptr() as usize;
+    let id_com = |ctx: &mut ReportContext<'static>, n: &str| ctx.commodities.ensure(n).as_str().as_ptr() as usize;
+    let id = |ctx: &mut ReportContext<'static>, n: &str| if commodity_decl { id_com(ctx, n) } else { id_acc(ctx, n) };
+    let pre_a = if used_a { id(&mut ctx, "a") } else { 0 };
+    let pre_b = if used_b { id(&mut ctx, "b") } else { 0 };
+    let r = accum.process(&mut ctx, &entry);
+    let conflict = with_alias && used_b; // b is already a canonical name: it cannot become an alias
+    match &r {
+        Err(_) => assert!(conflict, "C12: a consistent declaration was rejected"),
+        Ok(()) => {
+            assert!(!conflict, "C12: declaring as alias a name already in use as a canonical name was accepted (balances would split or merge silently)");
+            let a = id(&mut ctx, "a");
+            let b = id(&mut ctx, "b");
+            if used_a {
+                assert!(a == pre_a, "C12: declaring a name that was already used changed what it refers to");
+            }
+            if with_alias {
+                assert!(a == b, "C12: an alias declared after the first use of its canonical name does not resolve to it");
+            } else {
+                assert!(a != b, "C12: two unrelated names were merged");
+                if used_b {
+                    assert!(b == pre_b, "C12: an unrelated name changed what it refers to");
+                }
+            }
+        }
+    }
+    vk_cover!(used_a && with_alias && !used_b && r.is_ok(), "alias declared after the first use of the canonical name");
+    vk_cover!(conflict, "alias already in use as a canonical name");
+    core::mem::forget(r);
+    core::mem::forget(entry);
+    core::mem::forget(accum);
+    core::mem::forget(ctx);
+}
+
+vk_proof_models! {
+    #[cfg_attr(kani, kani::stub(crate::report::book_keeping::add_transaction, crate::report::book_keeping::verif_kani::cut_add_transaction))]
+    unwind 6; fn c12_declare_account() { decl_harness(false); }
+}
+vk_proof_models! {
+    #[cfg_attr(kani, kani::stub(crate::report::book_keeping::add_transaction, crate::report::book_keeping::verif_kani::cut_add_transaction))]
+    unwind 6; fn c12_declare_commodity() { decl_harness(true); }
+}
+
 #[cfg(all(test, not(kani)))]
 #[test]
 fn verif_replay_entry() {
@@ -599,6 +680,8 @@ fn verif_replay_entry() {
         ("c02_kernel_other_commodity", c02_kernel_other_commodity as fn()),
         ("c02_kernel_bare_zero", c02_kernel_bare_zero as fn()),
         ("c03_deduce_kernel", c03_deduce_kernel as fn()),
+        ("c12_declare_account", c12_declare_account as fn()),
+        ("c12_declare_commodity", c12_declare_commodity as fn()),
         ("c03_assign_commodity", c03_assign_commodity as fn()),
         ("c03_assign_bare_zero", c03_assign_bare_zero as fn()),
     ]);
